@@ -51,6 +51,7 @@ CFG = {
         'the byte-string hypothesis (entries < 256) is needed only because the model represents bytes as Nat: with an entry 256 both little-endian readers produce the chunk key 65536 (example in Props/C06.lean); it is not a restriction on real inputs',
         '64-bit portable format, no proof gap: the full statement is proved (C06_t : C06_t_statement): for every byte string bs (all entries < 256) with Spec.decode64 bs = some (S, rest), Treemap.deserialize chk dbg bs = ok (t, rest) for both decoders and both build configurations, with Treemap.WFd Bitmap.WF t (Treemap.TWF) and Treemap.elems t = S; the 32-bit C06 is lifted through the bucket loop (Lemmas/TreemapCodecWF.lean: decodeBuckets_spec, decode64_spec), so inner run chunks, offset-less inner headers and empty buckets are covered',
         '64-bit corollaries: C06_t_sorted (the set of an accepted stream is strictly ascending and inside u64), C06_t_unique / C06_t_agree (the result is the canonical treemap of S, all four decoder configurations agree), C06_t_standard (the decoders invert Spec.encode64, arbitrary trailing bytes) and C06_t_checked_wf are unconditional (the former C06_t_standard_partial / C06_t_checked_wf_partial with the 32-bit kernel hypotheses are gone)',
+        'model-fidelity audit (notes/fidelity-codecs.md): deserialize_from_impl (cookie match, run bitmap read before the size test, description / offset bytes, per-container loop with run / array / bitset arms, `Σ len` capacity, checked_add, ensure_correct_store for run chunks only, checked vs unchecked constructors) and the treemap bucket loop are classified M (mirrored); no simplification found in the decoder path',
     ],
     "level_text": "Lean 4 theorem that every stream accepted by the strict reference decoder Spec.decode (written from the "
                   "format specification, cross-validated against the upstream golden files and an independent Rust "
